@@ -70,6 +70,7 @@ class BasicOptimizer:
         self._constraint_tolerance = constraint_tolerance
         self._optimizer_context = OptimizerContext(evaluator=evaluator)
         self._observers: list[tuple[EventType, Callable[[Event], None]]] = []
+        self._added_observers = 0
         self._results: _Results
         self._kwargs: dict[str, Any] = kwargs
 
@@ -132,8 +133,10 @@ class BasicOptimizer:
             for key, value in self._kwargs.items():
                 if plan.handler_exists(key):
                     plan.add_handler(key, sources={optimizer}, **{key: value})
-            for event_type, function in self._observers:
+            # The context is shared by all runs, add each observer only once:
+            for event_type, function in self._observers[self._added_observers :]:
                 self._optimizer_context.add_observer(event_type, function)
+            self._added_observers = len(self._observers)
 
         results, exit_code = plan.run_function(self._transforms)
         variables = None if results is None else results.evaluations.variables
